@@ -99,6 +99,7 @@ type C06Case struct {
 	Expect             []C06Rec
 	Late               *C06Late
 	MutKinds           []string // what the mutated variant applies
+	MutProps           []string // "deviate-kind target-keyword property" of every deviate property written
 	Groupings          int
 	// ExtrasNodes: nodes of the expansion with a non-empty Extra / Exts prediction; ExtrasUses: uses
 	// statements with extras of their own; CapSensitive: copied nodes with exactly three own values
@@ -884,6 +885,9 @@ func C06Generate(r *rand.Rand, cfg C06Config) *C06Case {
 			f := files[r.Intn(len(files))]
 			td := g.add(f.Body, "typedef", "t")
 			g.add(td, "type", c06Builtins[i%len(c06Builtins)])
+			if g.chance(0.5) {
+				g.add(td, "units", "tu"+m.Name)
+			}
 		}
 		if g.chance(0.7) {
 			f := files[r.Intn(len(files))]
@@ -1588,52 +1592,66 @@ func (g *c06) mutate(c *C06Case) {
 				st = &Node{Kw: "deviation", Arg: pathText(t.steps, pfx, true)}
 				dv := g.add(st, "deviate", kind)
 				val := fmt.Sprint(7 + vi)
-				switch {
-				case t.n.Kw == "list" || t.n.Kw == "leaf-list":
-					switch {
-					case kind == "delete":
-						if m := declared2(t.n, "min-elements"); m != nil {
-							g.add(dv, "min-elements", m.Arg)
-						} else if m := declared2(t.n, "max-elements"); m != nil && m.Arg != "unbounded" {
-							g.add(dv, "max-elements", m.Arg)
-						} else {
-							g.add(dv, "config", "false")
-						}
-					case t.n.Kw == "leaf-list" && kind == "add" && g.chance(0.6):
-						g.add(dv, "default", "zz"+val)
-					case t.n.Kw == "leaf-list" && kind == "replace" && g.chance(0.3):
-						g.add(dv, "default", "rr"+val)
-					case g.chance(0.5):
-						g.add(dv, "min-elements", val)
-					default:
-						g.add(dv, "max-elements", "1"+val)
-					}
-				case t.n.Kw == "leaf":
+				// every property the target's kind takes under this deviate kind, chosen so that the
+				// deviation applies without error
+				type pv struct{ p, v string }
+				var cands []pv
+				tf := g.pick([]string{"true", "false"})
+				switch t.n.Kw {
+				case "leaf":
 					d := declared2(t.n, "default")
-					switch {
-					case kind == "delete" && d != nil:
-						g.add(dv, "default", d.Arg)
-					case kind == "delete":
-						g.add(dv, "config", "true")
-					case kind == "add" && d == nil:
-						g.add(dv, "default", "zz"+val)
-					case kind == "add":
-						g.add(dv, "config", "false")
-					case g.chance(0.3):
-						g.add(dv, "type", "int32")
-					case g.chance(0.5):
-						g.add(dv, "default", "rr"+val)
+					switch kind {
+					case "add":
+						cands = []pv{{"units", "du" + val}, {"units", "du" + val}, {"config", tf}, {"mandatory", tf}, {"type", "int32"}}
+						if d == nil {
+							cands = append(cands, pv{"default", "zz" + val})
+						}
+					case "replace":
+						cands = []pv{{"units", "du" + val}, {"units", "du" + val}, {"config", tf}, {"mandatory", tf}, {"type", "int32"}, {"default", "rr" + val}}
 					default:
-						g.add(dv, "mandatory", "true")
+						cands = []pv{{"units", "du" + val}, {"config", "true"}, {"mandatory", "true"}}
+						if d != nil {
+							cands = append(cands, pv{"default", d.Arg})
+						}
 					}
-				case t.n.Kw == "choice" && kind != "delete":
-					g.add(dv, "mandatory", g.pick([]string{"true", "false"}))
+				case "leaf-list", "list":
+					min := argOf(t.n, "min-elements", "0")
+					max := argOf(t.n, "max-elements", "unbounded")
+					if kind == "delete" {
+						cands = []pv{{"min-elements", min}, {"max-elements", max}, {"config", "true"}}
+					} else {
+						cands = []pv{{"min-elements", val}, {"max-elements", "1" + val}, {"config", tf}}
+					}
+					if t.n.Kw == "leaf-list" {
+						cands = append(cands, pv{"units", "du" + val}, pv{"units", "du" + val})
+						if kind == "delete" {
+							cands = append(cands, pv{"mandatory", "true"})
+						} else {
+							cands = append(cands, pv{"default", "zz" + val}, pv{"type", "int32"}, pv{"mandatory", tf})
+						}
+					}
+				case "choice":
+					if kind == "delete" {
+						cands = []pv{{"config", "true"}, {"mandatory", "true"}}
+					} else {
+						cands = []pv{{"mandatory", tf}, {"config", tf}}
+					}
 				default:
 					if kind == "delete" {
-						g.add(dv, "config", "true")
+						cands = []pv{{"config", "true"}}
 					} else {
-						g.add(dv, "config", g.pick([]string{"true", "false"}))
+						cands = []pv{{"config", tf}}
 					}
+				}
+				used := map[string]bool{}
+				for j, np := 0, 1+g.r.Intn(2); j < np; j++ {
+					cd := cands[g.r.Intn(len(cands))]
+					if used[cd.p] {
+						continue
+					}
+					used[cd.p] = true
+					g.add(dv, cd.p, cd.v)
+					c.MutProps = append(c.MutProps, kind+" "+t.n.Kw+" "+cd.p)
 				}
 			}
 			extra[host] = append(extra[host], st)
